@@ -296,6 +296,48 @@ def claim_token_dispatch(cx, res, kf):
         key = out[1] if out[0] in ("tok", "err") else out[0]
         seen[key] = seen.get(key, 0) + 1
         callnames = [c[1] for c in cs]
+        # the dispatch table: which scanner the token start is handed to (first scanner event of the path), on EVERY path
+        firsts = [e for e in st.events if e[0] in ("call", "name", "sub")]
+        if firsts:
+            f0 = firsts[0]
+            fname0 = f0[1] if f0[0] != "sub" else "sub"
+            sign = in_set(b0, b"+-")
+            b1n = z3.Or(eof1, in_set(b1, SYMBOL_TERMINATORS + (0, 0x0C, ord("|"), ord('"'))), in_set(b1, SIGN_SUBSEQUENT_EXTRA),
+                        z3.And(z3.UGE(b1, bv(65)), z3.ULE(b1, bv(90))), z3.And(z3.UGE(b1, bv(97)), z3.ULE(b1, bv(122))))
+            hashb = lambda c_: z3.And(b0 == bv(ord("#")), z3.Not(eof1), b1 == bv(ord(c_)))  # noqa
+            ENTRY = {
+                "parse_r6rs_str": z3.And(b0 == bv(ord('"')), z3.Not(ss_elisp)), "parse_elisp_str": z3.And(b0 == bv(ord('"')), ss_elisp),
+                "parse_r6rs_char": hashb("\\"), "parse_elisp_char": z3.And(b0 == bv(ord("?")), cs_elisp),
+                "decode_utf8_sequence": z3.UGT(b0, bv(127)),
+                "parse_radix_literal": z3.Or(hashb("b"), hashb("o"), hashb("d"), hashb("x")),
+                "expect_ident:il": hashb("n"), "expect_ident:u8": hashb("v"), "expect_ident:8": hashb("u"),
+                "sub": z3.And(digit, digsym),
+            }
+            cond0 = ENTRY.get(fname0)
+            if f0[0] == "name":
+                how0, prefix0 = f0[1], f0[2]
+                if how0 == "parse_symbol":
+                    cond0 = z3.Or(letter, z3.And(in_set(b0, SYMBOL_EXTENDED), z3.Not(z3.And(b0 == bv(ord("?")), cs_elisp))),
+                                  z3.And(b0 == bv(ord(":"))), z3.And(hashb(":"), kw_octo), z3.And(digit, digsym))
+                elif how0 == "parse_symbol_suffix" and prefix0 in (b"-", b"+"):
+                    cond0 = z3.And(sign, b0 == bv(prefix0[0]), b1n)
+                elif how0 == "parse_symbol_suffix" and prefix0 == b"#%":
+                    cond0 = z3.And(hashb("%"), racket)
+                else:
+                    cond0 = None
+            if cond0 is not None:
+                check(t, cond0, "token dispatch: `%s` is entered on a token start / option set it is not documented for" % fname0, None)
+        # WHICH scanner a token start is handed to is decided before the scanner runs: checked on every path, whatever the
+        # scanner then returns (an `invalid number` for `++` is the symptom of the sign being sent down the number path)
+        if "sub" not in [e[0] for e in st.events] and "parse_num_literal" in callnames and "parse_radix_literal" not in callnames:
+            c0 = [x for x in cs if x[1] == "parse_num_literal"][0]
+            r0, pos0 = c0[2][0].e, c0[2][1].e
+            b1_name0 = z3.Or(in_set(b1, SYMBOL_TERMINATORS + (0, 0x0C, ord("|"), ord('"'))), in_set(b1, SIGN_SUBSEQUENT_EXTRA),
+                             z3.And(z3.UGE(b1, bv(65)), z3.ULE(b1, bv(90))), z3.And(z3.UGE(b1, bv(97)), z3.ULE(b1, bv(122))))
+            is_digit0 = z3.And(digit, z3.Not(digsym), pos0, c0[3] == idx0)
+            signnum0 = z3.And(in_set(b0, b"+-"), pos0 == (b0 == bv(ord("+"))), c0[3] == idx0 + 1, z3.Not(eof1), z3.Not(b1_name0))
+            check(t, z3.And(r0 == 10, z3.Or(is_digit0, signnum0)), "the decimal number scanner is entered on a token start that is not a digit / a sign "
+                  "followed by something that cannot continue a name (`+`, `-`, `-x`, `++`, `-+` are names)", None)
         if out[0] == "err" and out[1].startswith("from:"):
             # an error of a callee is passed on unchanged: nothing to classify
             continue
@@ -413,8 +455,12 @@ def claim_token_dispatch(cx, res, kf):
                     c = [x for x in cs if x[1] == "parse_num_literal"][0]
                     r, pos = c[2][0].e, c[2][1].e
                     is_digit = z3.And(digit, z3.Not(digsym), pos, c[3] == idx0)
-                    signnum = z3.And(in_set(b0, b"+-"), pos == (b0 == bv(ord("+"))), c[3] == idx0 + 1, z3.Not(eof1),
-                                     z3.Not(in_set(b1, SYMBOL_TERMINATORS)))
+                    # after a sign the number path is taken exactly when the next byte cannot continue a peculiar identifier
+                    # (`+`/`-` alone, `-x`, `++`, `-+` ... are names): not a terminator / delimiter / NUL, not a letter, not a
+                    # <sign subsequent> character
+                    b1_name = z3.Or(in_set(b1, SYMBOL_TERMINATORS + (0, 0x0C, ord("|"), ord('"'))), in_set(b1, SIGN_SUBSEQUENT_EXTRA),
+                                    z3.And(z3.UGE(b1, bv(65)), z3.ULE(b1, bv(90))), z3.And(z3.UGE(b1, bv(97)), z3.ULE(b1, bv(122))))
+                    signnum = z3.And(in_set(b0, b"+-"), pos == (b0 == bv(ord("+"))), c[3] == idx0 + 1, z3.Not(eof1), z3.Not(b1_name))
                     check(t, z3.And(r == 10, z3.Or(is_digit, signnum)), "decimal number path entered wrongly (a sign followed by a "
                           "token terminator is the symbol + / -)", replay_corpus(SIGN_CORPUS))
             elif kind in ("ListOpen", "VecOpen", "ByteVecOpen"):
@@ -487,5 +533,5 @@ CLAIMS = [
           "prefixes / sign followed by a terminator), independent of the name's first byte class; numbers in leading-digit "
           "mode only when the whole token is a literal",
           "first byte and one lookahead byte symbolic, all option fields symbolic, names abstracted to 3 predicates", configs=("fast",),
-          also=("C02", "C13")),
+          also=("C01", "C02", "C13")),
 ]
